@@ -120,6 +120,47 @@ func (f faultWriter) DeleteTag(ctx context.Context, repo, name string) error {
 	return f.around(func() error { return f.Interface.DeleteTag(ctx, repo, name) }, nil)
 }
 
+// The chunked upload: the writer a member hands out is wrapped too, so that ONE call of its
+// Write / Close / Commit / Cancel can be made to fail (the member is not contacted: nothing
+// happens to its session) - the caller may then call again on the same unified writer.
+type faultBlobWriter struct {
+	ociregistry.BlobWriter
+	f faultWriter
+}
+
+func (f faultWriter) PushBlobChunked(ctx context.Context, repo string, chunkSize int) (ociregistry.BlobWriter, error) {
+	w, err := f.Interface.PushBlobChunked(ctx, repo, chunkSize)
+	if err != nil {
+		return nil, err
+	}
+	return &faultBlobWriter{BlobWriter: w, f: f}, nil
+}
+func (f faultWriter) PushBlobChunkedResume(ctx context.Context, repo, id string, offset int64, chunkSize int) (ociregistry.BlobWriter, error) {
+	w, err := f.Interface.PushBlobChunkedResume(ctx, repo, id, offset, chunkSize)
+	if err != nil {
+		return nil, err
+	}
+	return &faultBlobWriter{BlobWriter: w, f: f}, nil
+}
+func (w *faultBlobWriter) Write(p []byte) (n int, err error) {
+	err = w.f.around(func() (e error) { n, e = w.BlobWriter.Write(p); return }, nil)
+	return
+}
+func (w *faultBlobWriter) Close() error  { return w.f.around(w.BlobWriter.Close, nil) }
+func (w *faultBlobWriter) Cancel() error { return w.f.around(w.BlobWriter.Cancel, nil) }
+func (w *faultBlobWriter) Commit(dg ociregistry.Digest) (d ociregistry.Descriptor, err error) {
+	err = w.f.around(func() (e error) { d, e = w.BlobWriter.Commit(dg); return }, nil)
+	return
+}
+
+func isFaultable(op string) bool {
+	switch op {
+	case "Write", "Close", "Commit", "Cancel":
+		return true
+	}
+	return isContentWrite(op)
+}
+
 type ListFault struct {
 	K    int    `json:"k"`
 	Code string `json:"code"` // "" = none
@@ -240,7 +281,7 @@ func (u *urun) exec(sc UScenario, pol string) {
 		if w == nil {
 			panic("bad via " + st.Via)
 		}
-		controlled := st.Via == "u" && (st.WF != [2]bool{} || st.First >= 0) && isContentWrite(st.Op.Op)
+		controlled := st.Via == "u" && (st.WF != [2]bool{} || st.First >= 0) && isFaultable(st.Op.Op)
 		if controlled {
 			fst.arm(st.WF, st.First)
 		} else {
@@ -566,6 +607,54 @@ func faultyWrites(rnd *rand.Rand, cat *Catalog, hot string) []UStep {
 	return steps
 }
 
+// faultyUpload: chunked uploads through the unifier during which ONE member's writer fails one
+// call; the caller repeats the call on the same unified writer, then reads the blob back.
+func faultyUpload(rnd *rand.Rand, cat *Catalog, r string, ids []string) []UStep {
+	var steps []UStep
+	var blobs []*Content
+	for _, c := range cat.Contents {
+		if !c.Man && len(c.Elems) >= 1 {
+			blobs = append(blobs, c)
+		}
+	}
+	u := func(o Op, bad, first int) {
+		st := UStep{Via: "u", Op: o, First: first}
+		if bad >= 0 {
+			st.WF[bad] = true
+		}
+		steps = append(steps, st)
+	}
+	// 1. the commit fails on one member, is repeated, and the blob is read back
+	b := blobs[rnd.Intn(len(blobs))]
+	id := ids[0]
+	u(Op{Op: "PushBlobChunked", R: r, U: id, Chunk: pick3(rnd)}, -1, -1)
+	u(Op{Op: "Write", R: r, U: id, Data: b.Elems}, -1, -1)
+	if rnd.Intn(2) == 0 {
+		u(Op{Op: "Close", R: r, U: id}, rnd.Intn(2), rnd.Intn(3)-1)
+		u(Op{Op: "Close", R: r, U: id}, -1, -1)
+		u(Op{Op: "Resume", R: r, U: id, Off: -1, Chunk: 0}, -1, -1)
+	}
+	u(Op{Op: "Commit", R: r, U: id, DD: b.ID}, rnd.Intn(2), rnd.Intn(3)-1)
+	u(Op{Op: "ResolveBlob", R: r, C: b.ID}, -1, -1)
+	u(Op{Op: "Commit", R: r, U: id, DD: b.ID}, -1, -1)
+	u(Op{Op: "ResolveBlob", R: r, C: b.ID}, -1, -1)
+	u(Op{Op: "GetBlob", R: r, C: b.ID}, -1, -1)
+	// 2. a write fails on one member and is repeated: the other member has the piece twice
+	b = blobs[rnd.Intn(len(blobs))]
+	id = ids[1]
+	u(Op{Op: "PushBlobChunked", R: r, U: id, Chunk: pick3(rnd)}, -1, -1)
+	u(Op{Op: "Write", R: r, U: id, Data: b.Elems}, rnd.Intn(2), rnd.Intn(3)-1)
+	u(Op{Op: "Write", R: r, U: id, Data: b.Elems}, -1, -1)
+	if rnd.Intn(2) == 0 {
+		// 3. ... or the upload is abandoned, and Cancel fails on one member first
+		u(Op{Op: "Cancel", R: r, U: id}, rnd.Intn(2), rnd.Intn(3)-1)
+		u(Op{Op: "Cancel", R: r, U: id}, -1, -1)
+	}
+	u(Op{Op: "Commit", R: r, U: id, DD: b.ID}, -1, -1)
+	u(Op{Op: "ResolveBlob", R: r, C: b.ID}, -1, -1)
+	return steps
+}
+
 func viaU(ops []Op) []UStep {
 	steps := make([]UStep, len(ops))
 	for i, o := range ops {
@@ -584,6 +673,7 @@ func genUnifyScenario(rnd *rand.Rand, cat *Catalog, i int) UScenario {
 		sc.Steps = append(sc.Steps, readSweep(rnd, cat, hot, i%5 == 0)...)
 		sc.Steps = append(sc.Steps, asymWrites(rnd, cat, hot)...)
 		sc.Steps = append(sc.Steps, faultyWrites(rnd, cat, hot)...)
+		sc.Steps = append(sc.Steps, faultyUpload(rnd, cat, hot, cat.Uploads[len(cat.Uploads)-6:])...)
 		sc.Steps = append(sc.Steps, viaU(randOps(rnd, cat, 12, "all", true))...)
 		if rnd.Intn(2) == 0 {
 			sc.Steps = append(sc.Steps, resumeUpload(rnd, cat, hot, cat.Uploads[len(cat.Uploads)-1])...)
@@ -593,6 +683,7 @@ func genUnifyScenario(rnd *rand.Rand, cat *Catalog, i int) UScenario {
 		prof := []string{"all", "upload", "manifest"}[rnd.Intn(3)]
 		sc.Steps = viaU(randOps(rnd, cat, 30, prof, rnd.Intn(3) != 0))
 		sc.Steps = append(sc.Steps, faultyWrites(rnd, cat, hot)...)
+		sc.Steps = append(sc.Steps, faultyUpload(rnd, cat, hot, cat.Uploads[len(cat.Uploads)-6:])...)
 		sc.Steps = append(sc.Steps, viaU(randOps(rnd, cat, 6, "manifest", true))...)
 	case 3: // chunked uploads with resume through the unifier
 		sc.Kind = "resume"
@@ -661,6 +752,7 @@ func listCatalog(rnd *rand.Rand) *Catalog {
 func listingScenario(rnd *rand.Rand, cat *Catalog, swap bool) UScenario {
 	sc := UScenario{Kind: "listing"}
 	hot := cat.Repos[rnd.Intn(len(cat.Repos))]
+	// 4: both, but stored under different media types (image in one, index in the other)
 	draw := func(n int) []int { // 0: member 0 only, 1: member 1 only, 2: both, 3: none
 		for {
 			cl := make([]int, n)
@@ -669,7 +761,7 @@ func listingScenario(rnd *rand.Rand, cat *Catalog, swap bool) UScenario {
 				cl[i] = []int{0, 0, 0, 1, 1, 1, 2, 2, 3, 3}[rnd.Intn(10)]
 				cnt[cl[i]]++
 			}
-			if cnt[0] >= 2 && cnt[1] >= 2 {
+			if cnt[0] >= 2 && cnt[1] >= 2 && cnt[2] >= 1 {
 				return cl
 			}
 		}
@@ -683,8 +775,24 @@ func listingScenario(rnd *rand.Rand, cat *Catalog, swap bool) UScenario {
 	}
 	blob := func(r, b string) Op { return Op{Op: "PushBlob", R: r, C: b, DD: b, DS: len(cat.byID[b].Data)} }
 	direct(2, blob(hot, "lb0"), Op{Op: "PushManifest", R: hot, T: "-", C: "base", MT: "image"})
+	// what both members hold, they hold - half of the time - under different media types
+	// (the bytes are valid as an image manifest and as an index): still ONE entry of the union
+	split := func(o Op) {
+		a, b := o, o
+		a.MT, b.MT = "image", "index"
+		if rnd.Intn(2) == 0 {
+			a.MT, b.MT = b.MT, a.MT
+		}
+		sc.Steps = append(sc.Steps, UStep{Via: "m0", Op: a, First: -1}, UStep{Via: "m1", Op: b, First: -1})
+	}
+	nsplit := 0
 	for i, c := range draw(len(cat.Tags)) {
-		direct(c, Op{Op: "PushManifest", R: hot, T: cat.Tags[i], C: "base", MT: "image"})
+		o := Op{Op: "PushManifest", R: hot, T: cat.Tags[i], C: "base", MT: "image"}
+		if c == 2 && rnd.Intn(2) == 0 {
+			split(o)
+			continue
+		}
+		direct(c, o)
 	}
 	for i, c := range draw(len(cat.Repos)) {
 		if cat.Repos[i] != hot {
@@ -692,7 +800,13 @@ func listingScenario(rnd *rand.Rand, cat *Catalog, swap bool) UScenario {
 		}
 	}
 	for k, c := range draw(8) {
-		direct(c, Op{Op: "PushManifest", R: hot, T: "-", C: fmt.Sprintf("ref%d", k+1), MT: "image"})
+		o := Op{Op: "PushManifest", R: hot, T: "-", C: fmt.Sprintf("ref%d", k+1), MT: "image"}
+		if c == 2 && (nsplit == 0 || rnd.Intn(2) == 0) {
+			nsplit++
+			split(o)
+			continue
+		}
+		direct(c, o)
 	}
 	rnd.Shuffle(len(sc.Steps)-4, func(i, j int) { sc.Steps[4+i], sc.Steps[4+j] = sc.Steps[4+j], sc.Steps[4+i] })
 	if swap {
@@ -707,6 +821,10 @@ func listingScenario(rnd *rand.Rand, cat *Catalog, swap bool) UScenario {
 		{Op: "Referrers", R: hot, C: "base"}, {Op: "Referrers", R: hot, C: "ref1"},
 		{Op: "ListTags", R: other}, {Op: "Referrers", R: other, C: "base"},
 	}
+	for _, t := range cat.Tags {
+		ls = append(ls, Op{Op: "ResolveTag", R: hot, T: t})
+	}
+	ls = append(ls, Op{Op: "GetTag", R: hot, T: cat.Tags[rnd.Intn(len(cat.Tags))]})
 	sc.Steps = append(sc.Steps, viaU(ls)...)
 	return sc
 }
